@@ -700,7 +700,7 @@ def execute(plan: dict) -> dict:
         if err:
             who = "" if slot == 0 else f" [object #{slot}, a copy]"
             if slot == 0 and len(objs) > 1:
-                who = " [the original, after a copy was taken and advanced]"
+                who = " [object #0, the original; copies of it are live as well]"
             fail(err[0], err[1] + who + f" (call #{calls})")
             break
 
